@@ -286,6 +286,40 @@ def unresolved_obb(sk):
     return found
 
 
+def double_clip_children(d):
+    """class clip-child-double-clip: some clipPath of the tree has a child under TWO clipped group levels (both groups carry a clip_path):
+    write_clip_path_children skips the inner group (`continue`), so that child is not written.  Same walk as Model/Writer.v write_clipkids."""
+    def rec(g, clipped):
+        for n in g['children']:
+            if n['t'] == 'g':
+                inner = n.get('clip') is not None
+                if clipped and inner:
+                    if n['children']:
+                        return True
+                    continue
+                if rec(n, clipped or inner):
+                    return True
+            elif n['t'] == 'text':
+                if rec(n['flattened'], clipped):
+                    return True
+        return False
+
+    def all_clips():
+        seen, todo = set(), list(d['clip_paths'])
+        for c in todo:
+            if c['ptr'] in seen:
+                continue
+            seen.add(c['ptr'])
+            yield c
+            if c.get('clip'):
+                todo.append(c['clip'])
+    for c in all_clips():
+        for n in c['root']['children']:
+            if n['t'] == 'g' and rec(n, n.get('clip') is not None):
+                return True
+    return False
+
+
 def has_empty_definition(d):
     return any(not c['root']['children'] for c in d['clip_paths']) or any(not m['root']['children'] for m in d['masks'])
 
@@ -354,6 +388,8 @@ def classify(r, w, src=''):
             causes.append(('nested-image-defs', DEFS, (-1, 1)))
         if feimage_clones(d):
             causes.append(('feimage-clone-merged', DEFS, (-1,)))
+        if double_clip_children(d):
+            causes.append(('clip-child-double-clip', {7}, (-1,)))      # the skipped child's own clip paths are no longer referenced
         used = []
         ok = True
         for i, (x, y) in enumerate(zip(a2, b)):
